@@ -92,7 +92,7 @@ Definition to_symdata (d : sdata) : symdata :=
 Inductive dkind :=
   | DRedefine | DSegmentRange | DUnknownDefinition | DFieldNotAllowed | DMissingFields | DConfigKey
   | DBranchTooFar | DInvalidInstruction | DUnknownIdentifier | DNotInteger | DNotString
-  | DEval (e : everr) | DImportDefined | DAlign.
+  | DEval (e : everr) | DImportDefined | DAlign | DInvalidName | DNotConverged.
 Record diag := mkDiag { d_kind : dkind; d_span : option span; d_path : ipath; d_nums : list Z }.
 
 Definition binop_eqb (a b : binop) : bool :=
@@ -114,7 +114,8 @@ Definition dkind_eqb (a b : dkind) : bool :=
   | DRedefine, DRedefine | DSegmentRange, DSegmentRange | DUnknownDefinition, DUnknownDefinition
   | DFieldNotAllowed, DFieldNotAllowed | DMissingFields, DMissingFields | DConfigKey, DConfigKey
   | DBranchTooFar, DBranchTooFar | DInvalidInstruction, DInvalidInstruction | DUnknownIdentifier, DUnknownIdentifier
-  | DNotInteger, DNotInteger | DNotString, DNotString | DImportDefined, DImportDefined | DAlign, DAlign => true
+  | DNotInteger, DNotInteger | DNotString, DNotString | DImportDefined, DImportDefined | DAlign, DAlign
+  | DInvalidName, DInvalidName | DNotConverged, DNotConverged => true
   | DEval x, DEval y => everr_eqb x y
   | _, _ => false
   end.
@@ -476,7 +477,7 @@ Definition define_segment (idspan : span) (l : list cfgpair) : M unit :=
       name <- (match try_get_expression l t_name with
                | Some e => s <- evaluate_expression_as_string e ;;
                            match s with
-                           | Some s => ret s
+                           | Some s => if existsb (N.eqb 46) s then err1 DInvalidName None [s] [] else ret s   (* to_identifier *)
                            | None => err1 DConfigKey None [t_name] []
                            end
                | None => err1 DConfigKey None [t_name] []
@@ -492,7 +493,11 @@ Definition define_segment (idspan : span) (l : list cfgpair) : M unit :=
                 | None => ret segment_default_write
                 end) ;;
       bank <- (match try_get_expression l t_bank with
-               | Some e => evaluate_expression_as_string e
+               | Some e => s <- evaluate_expression_as_string e ;;
+                           match s with
+                           | Some s => if existsb (N.eqb 46) s then err1 DInvalidName None [s] [] else ret (Some s)
+                           | None => ret None
+                           end
                | None => ret None
                end) ;;
       target <- (match try_get_expression l t_pc with
@@ -500,8 +505,6 @@ Definition define_segment (idspan : span) (l : list cfgpair) : M unit :=
                              ret (match v with Some t => as_usize t | None => initial_pc end)
                  | None => ret initial_pc
                  end) ;;
-      (* Identifier::new asserts that the name contains no period *)
-      if existsb (N.eqb 46) name then abort FPanic else
       modify (install_segment name (seg_new (mkSegOpts bank initial_pc write target)))
   end.
 
@@ -713,7 +716,7 @@ Definition emit_token_body (fuel : nat) (t : token) : M unit :=
       match s with
       | None => ret tt
       | Some name =>
-          if existsb (N.eqb 46) name then abort FPanic else
+          if existsb (N.eqb 46) name then err1 DInvalidName (Some (le_span id)) [name] [] else
           c <- get ;;
           match seg_get (segments c) name with
           | None => err1 DUnknownIdentifier (Some (le_span id)) [] []
@@ -823,11 +826,11 @@ Inductive result :=
 Definition unknown_identifier_errors (u : list undef) : list diag :=
   map (fun x => match x with (_, id, sp) => mkDiag DUnknownIdentifier sp id [] end) u.
 
-(* the `while` loop of codegen(); `passes` bounds the number of passes (MAX_ITERATIONS is usize::MAX outside tests) *)
+(* the `while` loop of codegen(); `passes` is MAX_ITERATIONS (Gen.CodegenConsts.max_iterations) *)
 Fixpoint pass_loop (passes fuel : nat) (o : options) (toks : list token) (c : ctx)
                    (prev_undefined : list undef) (prev_errors : list diag) : result :=
   match passes with
-  | O => Aborted FFuel
+  | O => Failed (prev_errors ++ [mkDiag DNotConverged None [] []]) c    (* `ctx.pass_idx == MAX_ITERATIONS` after the loop *)
   | S n =>
       let symbol_count := node_count (symbols c) in
       match run_pass fuel toks c with
